@@ -181,7 +181,7 @@ def main():
         "setup_cmd": "cd /verif && ./setup.sh",
         "hooks": {
             "guard": "verif",
-            "enable": "go build -tags verif (the ./check driver passes it to every build; hook files are *_verif.go with //go:build verif)",
+            "enable": "go build -tags verif (the ./check driver passes it to every build; hook files carry //go:build verif: *_verif.go, lib/others/vhook/hook_on.go, client/wallet/verif_hooks.go)",
             "baseline_off_cmd": BASELINE_OFF,
             "source_commits": commits,
             "add_only": True,
